@@ -103,6 +103,7 @@ func (c02) Plan(tier string, seed int64) []mon.Workload {
 	}
 	return []mon.Workload{
 		{Name: "binary-table", N: int64(len(gen.BinOps)) * n * n * nsrc, Exhaustive: true},
+		{Name: "unary-of-binary", N: int64(len(gen.BinOps)) * n * n * 2, Exhaustive: true},
 		{Name: "compound-table", N: int64(len(c02Compound)) * n * n * 2, Exhaustive: true},
 		{Name: "unary-table", N: int64(len(gen.UnaryOps)) * n * nsrc, Exhaustive: true},
 		{Name: "trees", N: trees},
@@ -424,6 +425,20 @@ func (c02) build(c *mon.Ctx, workload string, i int64) c02Case {
 		}
 		stmts := append(pre, gt.Call("p", gt.Bin(op, l, r)))
 		return c02Case{Stmts: stmts, Point: pt, Cell: fmt.Sprintf("%s %s %s [%s]", c02Operands[li].Class, op, c02Operands[ri].Class, srcNames[src])}
+	case "unary-of-binary":
+		// `!(x OP y)` and `-(x OP y)` for every binary operator and every
+		// ordered pair of operand values (variables): the unary operator
+		// applies to the VALUE of the parenthesised expression
+		u := []string{"!", "-"}[i%2]
+		i /= 2
+		ri := i % n
+		i /= n
+		li := i % n
+		op := gen.BinOps[i/n]
+		l, _ := operandAs(c02Operands[li], 1, "x", "kx", &pre, pt)
+		r, _ := operandAs(c02Operands[ri], 1, "y", "ky", &pre, pt)
+		stmts := append(pre, gt.Call("p", gt.Unary(u, gt.Paren(gt.Bin(op, l, r)))))
+		return c02Case{Stmts: stmts, Point: pt, Cell: fmt.Sprintf("%s(%s %s %s)", u, c02Operands[li].Class, op, c02Operands[ri].Class)}
 	case "compound-table":
 		src := int(i % 2) // right operand: literal or variable
 		i /= 2
